@@ -1,5 +1,9 @@
 import ParryModel.C18.LemmasGrid
 import ParryModel.C18.Theorems3
+import ParryModel.C18.Theorems2
+import Mathlib.Analysis.Real.Sqrt
+import Mathlib.Algebra.Order.Floor.Ring
+import Mathlib.Topology.Algebra.Order.Floor
 /-!
 # C18 theorems, part 4: the 2-D voxelizer marks exactly the cells its primitives meet
 
@@ -170,6 +174,65 @@ theorem vox_params (cfg : Cfg) (hmode : PlainMode cfg) (res : Nat) (hres : 1 ≤
   obtain ⟨a, b, ha, hb, hok⟩ := t2 (e, k) (List.mem_zipIdx_iff_getElem?.mpr hk)
   rw [v3, v4, s1, s2]
   exact ⟨a, b, by simpa using ha, by simpa using hb, hok⟩
+
+/-- **vox_fill_spec** (`FloodFill { detect_cavities: false, detect_self_intersections: false }`, no panic; any instance).
+In the volume returned by `voxelize`, with `S` = its set of `PrimitiveOnSurface` cells: an in-grid cell is
+`PrimitiveOutsideSurface` iff it is connected to a non-surface cell of the grid border through non-surface cells
+(`Reach`, 4-connectivity), `PrimitiveInsideSurface` iff it is a non-surface cell **not** so connected — the inside is
+exactly the set of enclosed cells — and every cell holds one of the three final values. -/
+theorem vox_fill_spec (cfg : Cfg) (hsi : cfg.detectSelfInter = false) (hflood : cfg.flood = true)
+    (hcav : cfg.detectCavities = false) (res : Nat) (hres : 1 ≤ res) (p0 : V2 K) (ps : List (V2 K))
+    (edges : List (Nat × Nat)) (hp : (voxelize cfg res (p0 :: ps) edges).1.panic = false) :
+    ∀ q, InB (voxelize cfg res (p0 :: ps) edges).1.ni (voxelize cfg res (p0 :: ps) edges).1.nj q →
+      (getC (voxelize cfg res (p0 :: ps) edges).1.ni (voxelize cfg res (p0 :: ps) edges).1.vals q = .outside ↔
+        Reach (voxelize cfg res (p0 :: ps) edges).1.ni (voxelize cfg res (p0 :: ps) edges).1.nj
+          (fun c => getC (voxelize cfg res (p0 :: ps) edges).1.ni (voxelize cfg res (p0 :: ps) edges).1.vals c = .surf) q) ∧
+      (getC (voxelize cfg res (p0 :: ps) edges).1.ni (voxelize cfg res (p0 :: ps) edges).1.vals q = .inside ↔
+        (getC (voxelize cfg res (p0 :: ps) edges).1.ni (voxelize cfg res (p0 :: ps) edges).1.vals q ≠ .surf ∧
+         ¬ Reach (voxelize cfg res (p0 :: ps) edges).1.ni (voxelize cfg res (p0 :: ps) edges).1.nj
+          (fun c => getC (voxelize cfg res (p0 :: ps) edges).1.ni (voxelize cfg res (p0 :: ps) edges).1.vals c = .surf) q)) ∧
+      (getC (voxelize cfg res (p0 :: ps) edges).1.ni (voxelize cfg res (p0 :: ps) edges).1.vals q = .surf ∨
+       getC (voxelize cfg res (p0 :: ps) edges).1.ni (voxelize cfg res (p0 :: ps) edges).1.vals q = .outside ∨
+       getC (voxelize cfg res (p0 :: ps) edges).1.ni (voxelize cfg res (p0 :: ps) edges).1.vals q = .inside) := by
+  have hmode : PlainMode cfg := ⟨hsi, Or.inr hcav⟩
+  obtain ⟨v1, v2, v3, v4, v5, v6, v7, v8⟩ := voxelize_plain cfg hmode res hres p0 ps edges hp
+  have hm := markAll_eq cfg res p0 ps edges
+  obtain ⟨s1, s2, s3, s4, s5⟩ := markFrom_spec cfg hsi (p0 :: ps).toArray edges (cloudAabb p0 ps).1
+    (gridParams res (cloudAabb p0 ps).1 (cloudAabb p0 ps).2).2.2.1 (gridParams res (cloudAabb p0 ps).1 (cloudAabb p0 ps).2).2.2.2
+    (gridParams res (cloudAabb p0 ps).1 (cloudAabb p0 ps).2).1 (gridParams res (cloudAabb p0 ps).1 (cloudAabb p0 ps).2).2.1
+  rw [← hm] at s1 s2 s3 s4 s5
+  obtain ⟨g1, _, _, _⟩ := s5 v1
+  obtain ⟨d1, d2⟩ := gridParams_dims res hres (cloudAabb p0 ps).1 (cloudAabb p0 ps).2
+  set M := markAll cfg res (p0 :: ps) edges with hM
+  obtain ⟨_, _, f3⟩ := fill_spec cfg hflood hcav M.ni M.nj (by rw [s1]; exact d1) (by rw [s2]; exact d2) M.vals g1.size g1.vals
+  have hvals : (voxelize cfg res (p0 :: ps) edges).1.vals = (fill cfg M.ni M.nj M.vals).1 := by
+    have hvox : voxelize cfg res (p0 :: ps) edges =
+      if M.panic then (M, true)
+      else ({ M with vals := (fill cfg M.ni M.nj M.vals).1 }, (fill cfg M.ni M.nj M.vals).2) := rfl
+    rw [hvox, if_neg (by rw [v1]; simp)]
+  intro q hq
+  rw [v3, v4] at hq ⊢
+  rw [hvals]
+  obtain ⟨a1, a2, a3, a4⟩ := f3 q hq
+  -- the surface predicate of the result is that of the marking phase
+  have hS : ∀ p, Reach M.ni M.nj (fun c => getC M.ni (fill cfg M.ni M.nj M.vals).1 c = .surf) p ↔
+      Reach M.ni M.nj (fun c => getC M.ni M.vals c = .surf) p := by
+    intro p
+    constructor
+    · intro h
+      induction h with
+      | border hb hbd hs => exact Reach.border hb hbd (fun x => hs ((f3 _ hb).1.mpr x))
+      | step _ hadj hq' hs ih => exact Reach.step ih hadj hq' (fun x => hs ((f3 _ hq').1.mpr x))
+    · intro h
+      induction h with
+      | border hb hbd hs => exact Reach.border hb hbd (fun x => hs ((f3 _ hb).1.mp x))
+      | step _ hadj hq' hs ih => exact Reach.step ih hadj hq' (fun x => hs ((f3 _ hq').1.mp x))
+  rw [hS q]
+  refine ⟨a2, ?_, a4⟩
+  rw [a3]
+  constructor
+  · rintro ⟨x, y⟩; exact ⟨fun z => x (a1.mp z), y⟩
+  · rintro ⟨x, y⟩; exact ⟨fun z => x (a1.mpr z), y⟩
 
 end generic
 
@@ -350,5 +413,115 @@ theorem vox_no_panic (htr : LawfulTrunc tr) (cfg : Cfg) (hmode : PlainMode cfg)
   have B := assert_ok_field sq tr htr res hres (cloudAabb p0 ps).1 (cloudAabb p0 ps).2 _ hbbb.1 hbbb.2 hext
   exact ⟨A.1, A.2, B.1, B.2⟩
 
+/-- **vox_surface_meets** (geometric soundness of the surface marking; `PlainMode`, no panic, `resolution ≥ 2`, the points
+do not all coincide; lawful instance).  If an in-grid cell `c` is `PrimitiveOnSurface` in the returned volume then some
+primitive `k` (segment `a b`) has a positive test on it, and — provided that segment is degenerate or longer than
+`DEFAULT_EPSILON` voxels — a point of the segment lies in the closed world-space square of `c`.  (For a non-degenerate
+segment of at most `ε` voxels the code drops the segment-normal axis: the statement is then only the AABB overlap.) -/
+theorem vox_surface_meets (hsq : LawfulSqrt sq) (htr : LawfulTrunc tr) (cfg : Cfg) (hmode : PlainMode cfg)
+    (res : Nat) (hres : 2 ≤ res) (p0 : V2 K) (ps : List (V2 K)) (edges : List (Nat × Nat)) :
+    letI := fieldNum K sq; letI := fieldCast tr
+    ((cloudAabb p0 ps).1.x < (cloudAabb p0 ps).2.x ∨ (cloudAabb p0 ps).1.y < (cloudAabb p0 ps).2.y) →
+    (voxelize cfg res (p0 :: ps) edges).1.panic = false →
+    ∀ c, InB (voxelize cfg res (p0 :: ps) edges).1.ni (voxelize cfg res (p0 :: ps) edges).1.nj c →
+      getC (voxelize cfg res (p0 :: ps) edges).1.ni (voxelize cfg res (p0 :: ps) edges).1.vals c = .surf →
+      ∃ (k : Nat) (e : Nat × Nat) (a b : V2 K), edges[k]? = some e ∧ (p0 :: ps)[e.1]? = some a ∧ (p0 :: ps)[e.2]? = some b ∧
+        ((a = b ∨ (eps * (voxelize cfg res (p0 :: ps) edges).1.scale) * (eps * (voxelize cfg res (p0 :: ps) edges).1.scale)
+            < (b.x - a.x) * (b.x - a.x) + (b.y - a.y) * (b.y - a.y)) →
+          ∃ p, (Segment2.mk a b).Mem p ∧
+            InCell (voxelize cfg res (p0 :: ps) edges).1.origin (voxelize cfg res (p0 :: ps) edges).1.scale c p) := by
+  letI := fieldNum K sq; letI := fieldCast tr
+  intro hext hp c hc hsurf
+  obtain ⟨q1, q2, q3, q4, _⟩ := vox_params cfg hmode res (by omega) p0 ps edges hp
+  obtain ⟨_, hiff⟩ := vox_surface_iff cfg hmode res (by omega) p0 ps edges hp
+  obtain ⟨k, e, a, b, hk, ha, hb, _, hhit⟩ := (hiff c hc).mp hsurf
+  refine ⟨k, e, a, b, hk, ha, hb, fun hlen => ?_⟩
+  have hbb := cloudAabb_bounds sq p0 ps
+  have hba := hbb a (List.mem_of_getElem? ha)
+  obtain ⟨hS, hI, hSI, _, _⟩ := gridParams_field sq tr res hres (cloudAabb p0 ps).1 (cloudAabb p0 ps).2
+    (le_trans hba.1.1 hba.1.2) (le_trans hba.2.1 hba.2.2) hext
+  rw [q4] at hlen
+  rw [q3, q4]
+  set O := (cloudAabb p0 ps).1 with hO
+  set S := (gridParams res (cloudAabb p0 ps).1 (cloudAabb p0 ps).2).2.2.1 with hSdef
+  set INV := (gridParams res (cloudAabb p0 ps).1 (cloudAabb p0 ps).2).2.2.2 with hIdef
+  unfold cellHit at hhit
+  rw [cellAabb_field sq tr] at hhit
+  simp only [] at hhit
+  -- the grid-space segment is degenerate or longer than ε
+  have hlen' : gridPt O INV a = gridPt O INV b ∨
+      @eps K (fieldNum K sq) * @eps K (fieldNum K sq) <
+        ((gridPt O INV b).y - (gridPt O INV a).y) * ((gridPt O INV b).y - (gridPt O INV a).y) +
+        -((gridPt O INV b).x - (gridPt O INV a).x) * -((gridPt O INV b).x - (gridPt O INV a).x) := by
+    rcases hlen with rfl | h
+    · left; rfl
+    · right
+      simp only [gridPt, V2.sub, V2.smul]
+      have e1 : ((b.y - O.y) * INV - (a.y - O.y) * INV) * ((b.y - O.y) * INV - (a.y - O.y) * INV) +
+          -((b.x - O.x) * INV - (a.x - O.x) * INV) * -((b.x - O.x) * INV - (a.x - O.x) * INV)
+          = ((b.x - a.x) * (b.x - a.x) + (b.y - a.y) * (b.y - a.y)) * (INV * INV) := by ring
+      rw [e1]
+      have e2 : @eps K (fieldNum K sq) * @eps K (fieldNum K sq)
+          = (@eps K (fieldNum K sq) * S) * (@eps K (fieldNum K sq) * S) * (INV * INV) := by
+        have : S * INV * (S * INV) = 1 := by rw [hSI]; ring
+        linear_combination (-(@eps K (fieldNum K sq) * @eps K (fieldNum K sq))) * this
+      rw [e2]
+      exact mul_lt_mul_of_pos_right h (mul_pos hI hI)
+  obtain ⟨gq, ⟨⟨x1, x2⟩, ⟨y1, y2⟩⟩, t, ht0, ht1, rfl⟩ := segtest_sound sq hsq _ _ (gridPt O INV a) (gridPt O INV b)
+    (by simp only []; linarith) (by simp only []; linarith) hlen' hhit
+  refine ⟨a.add ((b.sub a).smul t), ⟨t, ht0, ht1, rfl⟩, ?_⟩
+  simp only [V2.add, V2.sub, V2.smul, gridPt] at x1 x2 y1 y2
+  constructor
+  · apply (grid_dist S INV hSI hS hI _ O.x _).mpr
+    simp only [V2.add, V2.sub, V2.smul]
+    have e : (a.x + (b.x - a.x) * t - O.x) * INV = (a.x - O.x) * INV + ((b.x - O.x) * INV - (a.x - O.x) * INV) * t := by ring
+    rw [e]
+    exact abs_le.mpr ⟨by linarith, by linarith⟩
+  · apply (grid_dist S INV hSI hS hI _ O.y _).mpr
+    simp only [V2.add, V2.sub, V2.smul]
+    have e : (a.y + (b.y - a.y) * t - O.y) * INV = (a.y - O.y) * INV + ((b.y - O.y) * INV - (a.y - O.y) * INV) * t := by ring
+    rw [e]
+    exact abs_le.mpr ⟨by linarith, by linarith⟩
+
 end field
+/-! ### non-vacuity -/
+
+/-- non-vacuity of `LawfulTrunc`: in any floor ring, `x ↦ ⌊x⌋.toNat` (what `x as u32` is below `2^32`) is lawful -/
+theorem lawfulTrunc_floor {K : Type} [Field K] [LinearOrder K] [IsStrictOrderedRing K] [FloorRing K] :
+    LawfulTrunc (K := K) (fun x => ⌊x⌋.toNat) := by
+  constructor
+  · intro x hx
+    have h0 : 0 ≤ ⌊x⌋ := Int.floor_nonneg.mpr hx
+    have : ((⌊x⌋.toNat : ℕ) : K) = ((⌊x⌋ : ℤ) : K) := by
+      rw [← Int.cast_natCast, Int.toNat_of_nonneg h0]
+    rw [this]; exact Int.floor_le x
+  · intro x hx
+    have h0 : 0 ≤ ⌊x⌋ := Int.floor_nonneg.mpr hx
+    have : ((⌊x⌋.toNat : ℕ) : K) = ((⌊x⌋ : ℤ) : K) := by
+      rw [← Int.cast_natCast, Int.toNat_of_nonneg h0]
+    rw [this]; exact Int.lt_floor_add_one x
+
+example : LawfulSqrt Real.sqrt ∧ LawfulTrunc (K := ℝ) (fun x => ⌊x⌋.toNat) :=
+  ⟨⟨fun x _ => Real.sqrt_nonneg x, fun _ hx => Real.mul_self_sqrt hx⟩, lawfulTrunc_floor⟩
+
+/-- all hypotheses of the theorems are jointly satisfiable: the 4×2 rectangle at resolution 5, flood fill, map kept -/
+example :
+    letI := fieldNum ℝ Real.sqrt; letI := fieldCast (K := ℝ) (fun x => ⌊x⌋.toNat)
+    PlainMode ⟨true, false, false, true⟩ ∧
+    ((cloudAabb (⟨0, 0⟩ : V2 ℝ) [⟨4, 0⟩, ⟨4, 2⟩, ⟨0, 2⟩]).1.x < (cloudAabb (⟨0, 0⟩ : V2 ℝ) [⟨4, 0⟩, ⟨4, 2⟩, ⟨0, 2⟩]).2.x ∨
+     (cloudAabb (⟨0, 0⟩ : V2 ℝ) [⟨4, 0⟩, ⟨4, 2⟩, ⟨0, 2⟩]).1.y < (cloudAabb (⟨0, 0⟩ : V2 ℝ) [⟨4, 0⟩, ⟨4, 2⟩, ⟨0, 2⟩]).2.y) ∧
+    (∀ e ∈ [(0, 1), (1, 2), (2, 3), (3, 0)], e.1 < ((⟨0, 0⟩ : V2 ℝ) :: [⟨4, 0⟩, ⟨4, 2⟩, ⟨0, 2⟩]).length ∧
+      e.2 < ((⟨0, 0⟩ : V2 ℝ) :: [⟨4, 0⟩, ⟨4, 2⟩, ⟨0, 2⟩]).length) ∧
+    (voxelize ⟨true, false, false, true⟩ 5 ((⟨0, 0⟩ : V2 ℝ) :: [⟨4, 0⟩, ⟨4, 2⟩, ⟨0, 2⟩]) [(0, 1), (1, 2), (2, 3), (3, 0)]).1.panic = false := by
+  letI := fieldNum ℝ Real.sqrt; letI := fieldCast (K := ℝ) (fun x => ⌊x⌋.toNat)
+  have h1 : PlainMode ⟨true, false, false, true⟩ := ⟨rfl, Or.inr rfl⟩
+  have h2 : ((cloudAabb (⟨0, 0⟩ : V2 ℝ) [⟨4, 0⟩, ⟨4, 2⟩, ⟨0, 2⟩]).1.x < (cloudAabb (⟨0, 0⟩ : V2 ℝ) [⟨4, 0⟩, ⟨4, 2⟩, ⟨0, 2⟩]).2.x ∨
+     (cloudAabb (⟨0, 0⟩ : V2 ℝ) [⟨4, 0⟩, ⟨4, 2⟩, ⟨0, 2⟩]).1.y < (cloudAabb (⟨0, 0⟩ : V2 ℝ) [⟨4, 0⟩, ⟨4, 2⟩, ⟨0, 2⟩]).2.y) := by
+    left
+    simp only [cloudAabb, List.foldl_cons, List.foldl_nil, V2.inf, V2.sup, fieldNum_nmin, fieldNum_nmax]
+    norm_num
+  have h3 : ∀ e ∈ [(0, 1), (1, 2), (2, 3), (3, 0)], e.1 < ((⟨0, 0⟩ : V2 ℝ) :: [⟨4, 0⟩, ⟨4, 2⟩, ⟨0, 2⟩]).length ∧
+      e.2 < ((⟨0, 0⟩ : V2 ℝ) :: [⟨4, 0⟩, ⟨4, 2⟩, ⟨0, 2⟩]).length := by
+    intro e he; simp at he; rcases he with rfl | rfl | rfl | rfl <;> simp
+  exact ⟨h1, h2, h3, vox_no_panic Real.sqrt _ lawfulTrunc_floor _ h1 5 (by norm_num) _ _ _ h2 h3⟩
 end C18
